@@ -24,8 +24,9 @@ SRCS = ["matrix.c", "vector.c", "memwrapper.c", "numeric.c"]
 def jobs(tier):
     J = []
     # LeaveOneOut: (nobj, xc, ny, nlv, nth)
-    cfgs = [(3, 2, 2, 0, 2), (3, 2, 2, 2, 2), (4, 2, 1, 0, 3), (2, 1, 2, 0, 1), (3, 2, 2, 2, 4)] if tier == "quick" else \
-           [(3, 2, 2, 0, 2), (3, 2, 2, 2, 2), (4, 2, 1, 0, 3), (2, 1, 2, 0, 1), (3, 2, 2, 2, 4), (4, 2, 2, 2, 3), (4, 1, 3, 0, 2), (4, 2, 2, 1, 1)]
+    # include object counts with a second batch whose later threads are used (objects >= 2*nthreads)
+    cfgs = [(3, 2, 2, 0, 2), (3, 2, 2, 2, 2), (4, 2, 1, 0, 3), (2, 1, 2, 0, 1), (3, 2, 2, 2, 4), (4, 1, 1, 0, 2), (5, 1, 1, 0, 2)] if tier == "quick" else \
+           [(3, 2, 2, 0, 2), (3, 2, 2, 2, 2), (4, 2, 1, 0, 3), (2, 1, 2, 0, 1), (3, 2, 2, 2, 4), (4, 1, 1, 0, 2), (5, 1, 1, 0, 2), (4, 2, 2, 2, 3), (4, 1, 3, 0, 2), (4, 2, 2, 1, 1), (6, 1, 1, 0, 3), (5, 2, 2, 1, 2)]
     for (n, xc, ny, nlv, nth) in cfgs:
         for inst in ("A", "B"):
             d = {"VC_NOBJ": n, "VC_XC": xc, "VC_NY": ny, "VC_NLV": nlv, "VC_NTH": nth, ("VC_ZERO_Y" if inst == "A" else "VC_ZERO_PRED"): None}
